@@ -47,7 +47,8 @@ class PairLts:
         return i
 
     @staticmethod
-    def load(path):
+    def load(path, keyfn=None):
+        keyfn = keyfn or lbl_key
         l = PairLts()
         with open(path) as f:
             for ln in f:
@@ -61,7 +62,7 @@ class PairLts:
                     l.states[d] = dst
                 if l.init is None:
                     l.init = s
-                k = lbl_key(lbl)
+                k = keyfn(lbl)
                 l.lbl.setdefault(k, lbl)
                 l.trans[s].setdefault(k, []).append((reply, d))
                 l.nedges += 1
@@ -124,7 +125,7 @@ def walks(l, n, depth, rng):
             if not keys:
                 break
             k = rng.choice(keys)
-            if k[1] in ("tick", "set_remote") and rng.random() < 0.6:
+            if ("tick" in k[:2] or "set_remote" in k[:2]) and rng.random() < 0.6:
                 k = rng.choice(keys)
             w.append(k)
             s = rng.choice(l.trans[s][k])[1]
@@ -132,7 +133,7 @@ def walks(l, n, depth, rng):
     return ws
 
 
-def run_pair_scripts(scripts, wd, tag):
+def run_pair_scripts(scripts, wd, tag, mode="pair"):
     n = len(scripts)
     nproc = min(6, max(1, n // 100))
     procs = []
@@ -142,11 +143,11 @@ def run_pair_scripts(scripts, wd, tag):
         with open(ip, "w") as f:
             for sc in scripts[ci::nproc]:
                 f.write(json.dumps(sc) + "\n")
-        procs.append((subprocess.Popen([STUNH, "pair", ip, op], stderr=subprocess.PIPE, text=True), ip, op))
+        procs.append((subprocess.Popen([STUNH, mode, ip, op], stderr=subprocess.PIPE, text=True), ip, op))
     for p, ip, op in procs:
         _, err = p.communicate()
         if p.returncode != 0:
-            raise ToolError("harness pair failed: " + err[-2000:])
+            raise ToolError("harness %s failed: " % mode + err[-2000:])
         with open(op) as f:
             for ln in f:
                 r = json.loads(ln)
@@ -243,7 +244,7 @@ def pair_binding(pid, tier, seed, wd, rep):
               "resp_key_a": "k1", "resp_key_b": "none", "steps": [l.lbl[k] for k in w], "req_alg": ALGS[i % 2], "resp_alg": ALGS[(i // 2) % 2],
               "cred_variant": (i // 2) % 5, "fingerprint": i % 3 != 0, "remote_addr": i % 5 == 0}
         scripts[sc["id"]] = sc
-    steps = mism = 0
+    steps = mism = trunc = 0
     seen_ops = {}
     for sid_, events in run_pair_scripts(list(scripts.values()), wd, "pair"):
         sc = scripts[sid_]
@@ -257,7 +258,8 @@ def pair_binding(pid, tier, seed, wd, rep):
                 key = lbl_key(lbl)
                 edges = l.trans[s].get(key)
                 if edges is None:
-                    raise ToolError("pair: script left the LTS")
+                    trunc += 1      # a nondeterministic outcome went the other way than the word was planned for
+                    break
                 ret = ev["ret"]
                 cand = [(r, d) for (r, d) in edges if reply_ok(r, ret, lbl, scale, ev["clock"])]
                 props = what = None
@@ -296,7 +298,7 @@ def pair_binding(pid, tier, seed, wd, rep):
     if missing and mism == 0:
         raise ToolError("vacuity: the two-agent runs never produced " + ",".join(missing))
     return dict(model_states=mc["distinct"], model_transitions=mc["generated"], lts_states=len(l.states), lts_edges=l.nedges,
-                scripts=len(scripts), steps=steps, state_label_pairs_not_toured=left, mismatches=mism, outcomes=seen_ops,
+                scripts=len(scripts), steps=steps, state_label_pairs_not_toured=left, truncated_scripts=trunc, mismatches=mism, outcomes=seen_ops,
                 t=round(time.time() - t0, 1))
 
 
